@@ -34,6 +34,8 @@ def main():
 
     from vmon import harness as H
 
+    H.install_lp_time_limit()
+
     prop = a.prop
     modname = "vmon.selftest" if prop == "selftest" else f"vmon.props.{prop.lower()}"
     mod = importlib.import_module(modname)
@@ -66,6 +68,8 @@ def main():
             mod.run(Ctx, rec)
     except Exception:
         rec.inconclusive.append("worker exception: " + traceback.format_exc()[-1500:])
+    if H.LP_TIME_LIMITED[0]:
+        rec.noncomp["linprog-hit-the-harness-time-limit"] += H.LP_TIME_LIMITED[0]
     out = rec.dump()
     out["info"] = mod.info(a.tier)
     out["unraisable"] = unraisable[:5]
